@@ -191,7 +191,10 @@ def build_bundle(rec):
     q = q[(q != 0).any(axis=1)][:8].astype(np.int32)
     if len(q) < 3:
         q = np.eye(ndim, dtype=np.int32)
-    arr(".qvec", q, "qvector")
+    # the caller's wave-vector table: integers as the library's own tables are, or the same numbers
+    # as float64 (what np.loadtxt of a saved table gives) - astype / asarray alias only the latter
+    qd = rec["subseed"] % 4
+    arr(".qvec", q.astype(np.float64) if qd == 0 else q.astype(np.int64) if qd == 1 else q, "qvector")
     arr(".ngrids", np.full(ndim, int(rng.integers(2, 5)), dtype=int), "ngrids")
     arr(".grp", xu[0][: min(N, 9)].copy(), "group")
     n_ser = int(rng.choice([9, 10, 11]))
